@@ -2,7 +2,7 @@ SPEC = {
     "id": "C33",
     "coq_props": ["Properties/C33.v", "Corr/C33.v"],
     "module": "MS.Properties.C33",
-    "theorems": ["C33_guarded", "C33_no_crash", "C33_refuted", "C33_refuted_time"],
+    "theorems": ["C33_guarded", "C33_no_crash", "C33_complete", "C33_refuted", "C33_refuted_time"],
     "corr_require": "Require Import MS.Corr.C33.",
     "agrees": "C33.agrees",
     "in_domain": "C33.in_domain",
@@ -36,7 +36,7 @@ SPEC = {
     "level": "proof",
     "level_text": "Coq theorem C33_guarded: for EVERY event stream without a csv read error, every chunk size >= 1, column mapping and float parser, "
                   "a successful import has loaded exactly the conversion of all records (independent of chunking); C33_no_crash: no crash when "
-                  "every timestamp parses. C33_refuted exhibits the read-error-treated-as-EOF defect (rows after a malformed line silently dropped, "
+                  "every timestamp parses; C33_complete: a file whose every row converts is loaded for every chunk size. C33_refuted exhibits the read-error-treated-as-EOF defect (rows after a malformed line silently dropped, "
                   "success reported), C33_refuted_time the nil-dereference panic on an unparsable timestamp.",
     "level_note": "No axioms. Trusted: Coq kernel/VM, gen translator, harness, encoding/csv and strconv.ParseFloat (real ones in the harness, "
                   "abstract in the theorems). Modelled not verified: cmd/connect/loader/utils.go CSVtoNumpyMulti/convertCSVtoCSM, read.go, time.go, "
